@@ -36,12 +36,13 @@ after the round trip and after one more `register`, and that each holds a lock a
 Wrapper / combinator family (graphs `w*`, `wrappers()`; directed, every run, every protocol, its interpreters run
 beside the other batches).  A dataset builds its own `Cached` / `Logged` / `WithOptions` / `Computation` wrappers on
 the fly, so graphs made of datasets alone never contain a STORED instance of those classes.  For each of
-~70 shapes — `cached(x)` with MemoryCache / a user `Cache` subclass / NoCache (function, decorator and constructor
+75 shapes — `cached(x)` with MemoryCache / a user `Cache` subclass / NoCache (function, decorator and constructor
 form, nested, around a dataset), `Logged`, `Computation` + `ChainedEffect` / `CallbackEffect` / `LogEffect`,
 `WithOptions` / `WithDefaultOptions`, `Option` (plain, value / template / evaluatable / factory default, typed,
-container / callable / evaluatable domain, doc, dotted), `AllOptions`, members of an `Option.namespace`, `Switch` /
+container / callable / evaluatable domain, doc, dotted), `AllOptions`, an `Option.namespace` object (annotated,
+defaulted, `Option.auto`, `Option.auto >> f` and nested members) whole, its nested namespace and each member, `Switch` /
 `switch`, `case(...).when(...).otherwise(...)`, `coalesce`, `Overloaded`, `Template`, `Iter`, `evaluatable_list/
-tuple/set/dict`, `Map`, `FunctionApplication(.lift)`, `PartialApplication(.lift)`, `pipeline_step`, `PipelineStep`,
+tuple/set/dict`, `Map`, `Map(...).values`, `FunctionApplication(.lift)`, `PartialApplication(.lift)`, `pipeline_step`, `PipelineStep`,
 `Pipeline`, `apply` / `>>` / `bind`, `Value`, explicit datasets and derivatives, a registered abstract dataset, a
 `@datasetclass`, `@interface` members with `@implements` / `.implementation` — two graphs are pickled: the node on
 its own (next to `node.apply(w_show)`, through which it is observed) and the node stored inside one explicit-form
@@ -53,11 +54,21 @@ memo travels.  Same oracle as for every other graph.
 `coverage.node_class_coverage` in the evidence lists every class defined in a labrea module with the number of
 pickled graphs whose live object graph contains an instance (walked in the pickling process), so a class nobody
 pickles shows up with 0.
-Library nodes that do not survive on their own on the unchanged code are treated like the unpicklable callback
-helpers (checked per run, graphs using them are outside "picklable parts", listed under
-`coverage.unpicklable_library_nodes`): an `Option.namespace` object (RecursionError in `pickle.loads`),
-`Map(...).values` (local lambda), `@interface` members declared by annotation, by an Evaluatable default or by a
-function in the class body (PicklingError; the last one by the mechanism of F12).
+Namespace objects and `Map(...).values` used to fail on their own (RecursionError in `pickle.loads`; local lambda)
+and were repaired in labrea: they are ordinary judged shapes, any failure of theirs is a violation (there is no
+"not a picklable part" way out for a library node: `LIBRARY_PARTS` is empty, `coverage.unpicklable_library_nodes`
+stays in the evidence and is `[]`).
+Known finding F28 — `@interface` members declared by annotation, by an Evaluatable / constant default or by a function
+in the class body, and implementation members given as functions, cannot be pickled — is handled like F12: six
+witness shapes (`F28_WITNESS`: each member kind alone, one interface with the three kinds, an implementation whose
+member is a function; each pickled through the member itself and through a dataset that uses the member) run in every
+run.  A witness is excused exactly when `pickle.dumps` fails for every protocol with PicklingError naming the function
+of such a member ("not the same object as <module>.<Class>.<member>" for a user function the library re-bound,
+"attribute lookup <Class>.<member> on labrea.interface failed" for a function the library made up) AND
+/verif/known_findings.json, read at run time, lists F28 for C20 (the same listing is required for F12); then one
+`KNOWN-FINDING ... F28` line is printed.  Failing in any other way, or while F28 is not listed, is a violation with
+the witness as replay; a witness that stops failing is judged like every other graph.  The model must agree on the
+name that cannot be pickled (`E notSame <name>` / `E notFound labrea.interface.<name>`).
 
 "Picklable parts" (precise meaning used by the sweep): every callable handed to labrea is a
 module-level `def` of the generated module (or a builtin), every option value / default / pre-set
@@ -112,9 +123,9 @@ SPEC = PropSpec(
         "user functions are deterministic; effects are observed only with the cache disabled (cache hits are "
         "value-transparent, so dropping cache entries on pickling is not a violation)",
         "known finding F12: decorator-form datasets are not picklable (decorator_form_unpicklable)",
-        "library nodes that do not pickle on their own on the unchanged code (an Option.namespace object, Map(...).values, "
-        "interface members declared by annotation / Evaluatable default / function in the class body) are outside "
-        "'picklable parts': probed on every run and listed in coverage.unpicklable_library_nodes, not judged",
+        "known finding F28: interface members declared by annotation / default value / function in the class body and "
+        "implementation members given as functions are not picklable (excused only while known_findings.json lists "
+        "F28 for C20 and the witness fails with the PicklingError described there)",
     ],
 )
 
@@ -757,33 +768,15 @@ def _w_namespace():
         A: int
         B = 3
         C = Option.auto(default=4, doc="auto") >> w_wrap
+        D = Option.auto(default="d-{WNS.A}", doc="plain auto", type=str)
 
         class SUB:
             X = "x-{WNS.A}"
     return _WNS
 
 
-try:
-    @interface("K")
-    class W_IF_PROBE:
-        m: int
-
-        def n(a=Option("A")):
-            return ["n", a]
-        p = Option("C", 0)
-except Exception:
-    W_IF_PROBE = None
-
-
 PARTS = {}
 for _name, _mk in [
-    # library nodes that do not pickle on their own on the unchanged code: outside "picklable parts", listed in the
-    # evidence (coverage.picklable_parts / unpicklable_library_nodes) instead of being judged
-    ("namespace", _w_namespace),
-    ("interface_annotated_member", lambda: W_IF_PROBE.m),
-    ("interface_default_member", lambda: W_IF_PROBE.p),
-    ("interface_function_member", lambda: W_IF_PROBE.n),
-    ("map_values", lambda: Map(FunctionApplication.lift(w_src), {"A": [1, 2]}).values),
     ("cb_wrap", lambda: cb_wrap),
     ("map_wrap_list", lambda: F.map(cb_wrap) + list),
     ("ps_tag", lambda: ps_tag),
@@ -1118,7 +1111,9 @@ WRAPPER_SHAPES: List[Tuple[str, str, List[str]]] = [
     ("namespace_member_default", "$NS = _w_namespace()\n$X = $NS.B", []),
     ("namespace_member_auto", "$NS = _w_namespace()\n$X = $NS.C", []),
     ("namespace_member_nested", "$NS = _w_namespace()\n$X = $NS.SUB.X", []),
-    ("namespace", "$X = _w_namespace()", ["namespace"]),
+    ("namespace_member_auto_plain", "$NS = _w_namespace()\n$X = $NS.D", []),
+    ("namespace", "_w_namespace()", []),
+    ("namespace_nested", "$NS = _w_namespace()\n$X = $NS.SUB", []),
     # conditionals
     ("switch_default", f"Switch('K', {{'one': {LIFT}, 'two': Option('C'), 1: 5}}, Option('B', 3))", []),
     ("switch_no_default", "switch(Option('K', 'one'), {'one': Option('A'), 'two': FunctionApplication.lift(w_alt)})", []),
@@ -1139,7 +1134,7 @@ WRAPPER_SHAPES: List[Tuple[str, str, List[str]]] = [
     ("evaluatable_set", "evaluatable_set(Option('A'), Option('B', 3))", []),
     ("evaluatable_dict", "evaluatable_dict({'a': Option('A'), 'alt': FunctionApplication.lift(w_alt)})", []),
     ("map", f"Map({LIFT}, {{'A': Option('AS', [1, 2]), 'B': [5, 6]}})", []),
-    ("map_values", f"Map({LIFT}, {{'A': [1, 2]}}).values", ["map_values"]),
+    ("map_values", f"Map({LIFT}, {{'A': Option('AS', [1, 2]), 'B': [5, 6]}}).values", []),
     # function application, pipelines
     ("lift", LIFT, []),
     ("lift_keyword_defaults", "FunctionApplication.lift(w_src, a=Option('C', 1))", []),
@@ -1169,33 +1164,39 @@ WRAPPER_SHAPES: List[Tuple[str, str, List[str]]] = [
                                  "class $IG:\n    m = abstractdataset(w_nothing)\n"
                                  "@implements($IF, $IG, alias=['one', 'two'])\nclass $IMPL:\n"
                                  f"    m = cached({LIFT})\n$X = $IG.m\n$Y = $IF.m", []),
+    # witnesses of known finding F28 (members of an @interface declared by annotation, by an Evaluatable / constant
+    # default or by a function in the class body, and implementation members given as functions, cannot be pickled)
     ("interface_annotated_member", "@interface('K')\nclass $IF:\n    m: int\n@$IF.implementation('one')\nclass $IMPL:\n"
-                                   "    m = Option('B', 3)\n$X = $IF.m", ["interface_annotated_member"]),
-    ("interface_default_member", "@interface('K')\nclass $IF:\n    p = Option('C', 0)\n$X = $IF.p",
-     ["interface_default_member"]),
+                                   "    m = Option('B', 3)\n$X = $IF.m", []),
+    ("interface_default_member", "@interface('K')\nclass $IF:\n    p = Option('C', 0)\n$X = $IF.p", []),
+    ("interface_constant_member", "@interface('K')\nclass $IF:\n    q = 5\n$X = $IF.q", []),
     ("interface_function_member", "@interface('K')\nclass $IF:\n    def n(a=Option('A')):\n        return ['n', a]\n"
-                                  "$X = $IF.n", ["interface_function_member"]),
+                                  "$X = $IF.n", []),
+    ("interface_three_member_kinds", "@interface('K')\nclass $IF:\n    m: int\n    def n(a=Option('A')):\n"
+                                     "        return ['n', a]\n    p = Option('C', 0)\n"
+                                     "@$IF.implementation('one')\nclass $IMPL:\n    m = Option('B', 3)\n"
+                                     "$X = $IF.n\n$Y = $IF.m\n$Z = $IF.p", []),
+    ("implementation_function_member", "@interface('K')\nclass $IF:\n    m = dataset(w_one)\n"
+                                       "@$IF.implementation('one')\nclass $IMPL:\n    def m(c=Option('C', 0)):\n"
+                                       "        return ['impl_m', c]\n$X = $IF.m", []),
 ]
 # extra top-level items of the bundle (objects that are pickled beside the node: classes go by reference)
 WRAPPER_EXTRA = {"interface_member": ["$IF", "$IMPL", "$Y"], "interface_implements_two": ["$IF", "$IG", "$IMPL", "$Y"],
                  "interface_annotated_member": ["$IF", "$IMPL"], "interface_default_member": ["$IF"],
-                 "interface_function_member": ["$IF"]}
+                 "interface_constant_member": ["$IF"], "interface_function_member": ["$IF"],
+                 "interface_three_member_kinds": ["$IF", "$IMPL", "$Y", "$Z"],
+                 "implementation_function_member": ["$IF", "$IMPL"]}
+# F28 witnesses: the functions (qualified inside the generated module, or inside labrea.interface for the ones the
+# library makes up) whose pickling by reference is what fails
+F28_WITNESS = {"interface_annotated_member": ["$IF.m"], "interface_default_member": ["$IF.p"],
+               "interface_constant_member": ["$IF.q"], "interface_function_member": ["$IF.n"],
+               "interface_three_member_kinds": ["$IF.m", "$IF.n", "$IF.p"],
+               "implementation_function_member": ["$IMPL.m"]}
 
 
 # parts of the library itself that do not pickle on their own on the unchanged code (checked per run like the
 # callback helpers; a graph using one is outside "picklable parts"): reported in the evidence, not judged
-LIBRARY_PARTS = {
-    "namespace": "@Option.namespace('WNS') class N: A: int  ->  pickle.loads(pickle.dumps(N)) raises RecursionError "
-                 "(Namespace.__getattr__ reads self._members before __init__ ran)",
-    "map_values": "pickle.dumps(Map(FunctionApplication.lift(f), {'A': [1, 2]}).values) fails: Map.values applies a "
-                  "local lambda",
-    "interface_annotated_member": "@interface('K') class I: m: int  ->  pickle.dumps(I.m) raises PicklingError "
-                                  "(attribute lookup I.m on labrea.interface failed)",
-    "interface_default_member": "@interface('K') class I: p = Option('C', 0)  ->  pickle.dumps(I.p) raises "
-                                "PicklingError (attribute lookup I.p on labrea.interface failed)",
-    "interface_function_member": "@interface('K') class I: def n(a=Option('A')): ...  ->  pickle.dumps(I.n) raises "
-                                 "PicklingError (not the same object as <module>.I.n; same mechanism as F12)",
-}
+LIBRARY_PARTS: Dict[str, str] = {}   # (none at present: Namespace objects and Map.values were repaired and are judged)
 # classes of labrea that are never a stored node of a dataset graph
 NOT_STORED = {
     "labrea.arguments.Arguments": "created per evaluation (the value of EvaluatableArguments)",
@@ -1203,7 +1204,6 @@ NOT_STORED = {
     "labrea.datasetclass._DatasetClassMixin": "base of the values a dataset class evaluates to",
     "labrea.dataset.DatasetFactory": "the `dataset` / `abstractdataset` decorator objects",
     "labrea.runtime.Runtime": "handler context, not a node",
-    "labrea.option._Auto": "placeholder inside a Namespace (which cannot be unpickled: unpicklable_library_nodes)",
 }
 
 
@@ -1236,6 +1236,8 @@ def wrappers(prefix: str = "w") -> List[Dict[str, Any]]:
             x = pre + "X"
             lines = (src if "\n" in src else "$X = " + src).replace("$", pre).split("\n")
             first = {"name": x, "kind": "expr", "form": "explicit", "lines": lines, "uses": uses, "shape": shape}
+            if shape in F28_WITNESS:
+                first["f28"] = [w.replace("$", pre) for w in F28_WITNESS[shape]]
             extra = [e.replace("$", pre) for e in WRAPPER_EXTRA.get(shape, [])]
             if placement == "alone":
                 root = {"name": pre + "R", "kind": "expr", "form": "explicit", "lines": [f"{pre}R = {x}.apply(w_show)"]}
@@ -1491,23 +1493,51 @@ def f12_names(module: str, g: Dict[str, Any]) -> List[str]:
     return [f"{module}.{n}" for n in decorator_names(g)]
 
 
+LOOKUP_FAILED = re.compile(r"attribute lookup ([A-Za-z0-9_.]+) on ([A-Za-z0-9_.]+) failed$")
+
+
+def f28_names(g: Dict[str, Any]) -> List[str]:
+    return [w for n in g["nodes"] for w in n.get("f28", [])]
+
+
+def listed_known() -> set:
+    """ids that /verif/known_findings.json (read now) lists for this property: only those excuse a failure"""
+    return {k.get("id") for k in known_findings().get("known", []) if "C20" in k.get("properties", [])}
+
+
 def classify(payload: Dict[str, Any]) -> Optional[str]:
     """known-finding trigger.  F12 exactly when the graph contains a decorator-form dataset and
     pickling failed, for every protocol tried, with PicklingError "... it's not the same object as
-    <module>.<function>" naming such a decorator-form function."""
+    <module>.<function>" naming such a decorator-form function.
+    F28 exactly when the graph declares interface / implementation members of the kinds F28 names (member by
+    annotation, by Evaluatable or constant default, by a function in the class body; implementation member given as a
+    function) and pickling failed, for every protocol tried, with PicklingError naming the function of such a member:
+    "... it's not the same object as <module>.<Class>.<member>" (the user's function, re-bound by the library) or
+    "... attribute lookup <Class>.<member> on labrea.interface failed" (a function the library made up).
+    (Whether a returned id excuses the failure is decided by the caller: it must be listed for C20 in
+    known_findings.json.)"""
     g = payload.get("graph")
     obs = payload.get("observed") or {}
     module = payload.get("module", "")
     if not g or not obs.get("dump_err"):
         return None
     names = set(f12_names(module, g))
-    if not names:
-        return None
-    for _p, (cls, msg) in obs["dump_err"].items():
-        m = NOT_SAME.search(msg)
-        if cls != "PicklingError" or not m or m.group(1) not in names:
+    if names and all(cls == "PicklingError" and NOT_SAME.search(msg) and NOT_SAME.search(msg).group(1) in names
+                     for cls, msg in obs["dump_err"].values()):
+        return "F12"
+    members = set(f28_names(g))
+    if members:
+        for cls, msg in obs["dump_err"].values():
+            same, look = NOT_SAME.search(msg), LOOKUP_FAILED.search(msg)
+            if cls != "PicklingError":
+                return None
+            if same and same.group(1) in {f"{module}.{w}" for w in members}:
+                continue
+            if look and look.group(1) in members and look.group(2) == "labrea.interface":
+                continue
             return None
-    return "F12"
+        return "F28"
+    return None
 
 
 # order in which the facets of an observation are compared / reported
@@ -1544,6 +1574,8 @@ def judge(g: Dict[str, Any], r: Dict[str, Any], module: str, protocols: List[int
     dump_err = r.get("dump_err", {})
     if dump_err:
         known = classify({"graph": g, "observed": {"dump_err": dump_err}, "module": module})
+        if known is not None and known not in listed_known():
+            known = None        # matches the description of a finding nobody recorded for C20: a violation
         p0 = sorted(dump_err)[0]
         what = (f"pickle.dumps fails for protocol(s) {sorted(dump_err)}: {dump_err[p0][0]}: {dump_err[p0][1]}"
                 .replace(module, "<module>"))
@@ -1551,6 +1583,9 @@ def judge(g: Dict[str, Any], r: Dict[str, Any], module: str, protocols: List[int
         if model is not None:
             m = NOT_SAME.search(dump_err[p0][1])
             want = f"E notSame {esc(m.group(1))}" if (m and dump_err[p0][0] == "PicklingError") else None
+            lf = LOOKUP_FAILED.search(dump_err[p0][1])
+            if lf and dump_err[p0][0] == "PicklingError":
+                want = f"E notFound {esc(lf.group(2) + '.' + lf.group(1))}"
             if model != want:
                 out.append(("correspondence", f"model says '{model}' where pickle.dumps raised "
                             f"{dump_err[p0][0]}: {dump_err[p0][1]}".replace(module, "<module>"), None))
@@ -1706,6 +1741,8 @@ def explore(ctx: Ctx) -> Exploration:
     disagreements_checked = 0
     samples: List[str] = []
     f12: List[Tuple[Dict[str, Any], Dict[str, Any], str, List[int], str]] = []
+    f28: List[Tuple[Dict[str, Any], Dict[str, Any], str, List[int], str]] = []
+    n_f28_witnesses = 0
     n_deco = 0
     skipped_parts = 0
     build_failed = 0
@@ -1764,6 +1801,7 @@ def explore(ctx: Ctx) -> Exploration:
             cov_cases += 1
             deco = bool(decorator_names(g))
             n_deco += deco
+            n_f28_witnesses += bool(f28_names(g))
             dist["form:" + ("decorator" if deco else "explicit")] += 1
             dist[f"nodes:{len(g['nodes'])}"] += 1
             for n in g["nodes"]:
@@ -1810,6 +1848,8 @@ def explore(ctx: Ctx) -> Exploration:
             for kind, what, known in v:
                 if known == "F12":
                     f12.append((g, r, res["module"], protocols, what))
+                if known == "F28":
+                    f28.append((g, r, res["module"], protocols, what))
             fresh_v = [(k, w) for k, w, kn in v if kn is None]
             if not fresh_v:
                 continue
@@ -1840,6 +1880,17 @@ def explore(ctx: Ctx) -> Exploration:
             "failing-input",
             f"decorator-form datasets are not picklable ({len(f12)} of {n_deco} graphs containing one; every protocol): "
             + what, make_payload(g, r, module, protocols, what), known_id="F12"))
+    if f28:
+        # (judge() hands out the id only while known_findings.json lists F28 for C20; a witness that fails in any other
+        # way, or while F28 is not listed, is an ordinary violation above; one that stops failing is judged like any graph)
+        g, r, module, protocols, what = min(f28, key=lambda t: len(json.dumps(t[0]["nodes"])))
+        findings.append(Finding(
+            "failing-input",
+            f"interface members declared by annotation / default value / function in the class body, and implementation "
+            f"members given as functions, are not picklable ({len(f28)} of {n_f28_witnesses} witness graphs; every "
+            f"protocol): " + what, make_payload(g, r, module, protocols, what), known_id="F28"))
+    dist["f28_graphs"] = len(f28)
+    dist["f28_witness_graphs"] = n_f28_witnesses
     dist["f12_graphs"] = len(f12)
     dist["decorator_form_graphs"] = n_deco
     # coverage of the library's node classes: every class defined in a labrea module, with the number of pickled
@@ -1882,6 +1933,10 @@ def explore(ctx: Ctx) -> Exploration:
             "wrapper_graphs_not_constructed": fam_lost,
         },
         "unpicklable_library_nodes": unpicklable_nodes,
+        "known_finding_witnesses": {"F12": {"graphs": n_deco, "failing_as_described": len(f12)},
+                                    "F28": {"graphs": n_f28_witnesses, "failing_as_described": len(f28),
+                                            "shapes": sorted(F28_WITNESS)},
+                                    "listed_for_C20": sorted(listed_known())},
         "outside_property_skipped": skipped_parts,
         "construction_failed": build_failed,
         "samples": samples[:5],
